@@ -266,6 +266,13 @@ NoGratuitousMap == ~obs.gratuitous
 BaseHigh == MaxOf({0} \cup {reps[i].high : i \in 1 .. Min2(base, Len(reps))})
 SteadyState == \A i \in 1 .. Len(reps) : i > base => reps[i].mark <= BaseHigh + Gran
 SteadyStateStep == obs.ev = "rep" /\ Len(reps) > base => reps[Len(reps)].mark <= BaseHigh + Gran
+\* the exact form, for workloads whose behaviour is periodic (the same calls under a fixed OS placement
+\* policy, e.g. allocate one big block / free it, thousands of times): what is held at a repetition mark
+\* after the baseline never exceeds what was held at a mark of the baseline - no tolerance, so a heap
+\* that creeps by a few bytes per repetition shows as soon as it crosses one more page
+BaseMark == MaxOf({0} \cup {reps[i].mark : i \in 1 .. Min2(base, Len(reps))})
+MarksSteady == \A i \in 1 .. Len(reps) : i > base => reps[i].mark <= BaseMark
+MarksSteadyStep == obs.ev = "rep" /\ Len(reps) > base => reps[Len(reps)].mark <= BaseMark
 \* memory held is bounded by peak demand (loose: trim threshold, granularity, segment overhead)
 Envelope == call = NoCall => Footprint <= EnvK * peak + EnvC
 
